@@ -524,8 +524,26 @@ Record obs_view := mkOv {
   ov_node : bytes; ov_runit_set : bool; ov_started : bool
 }.
 
+(* A second kind of case ties the PROGRAMS to the code: the file-system calls of the daemon during
+   one submission (strace of the real process, filtered to the unit directory, up to the start
+   of the runner) as a list of tags must be the modifying steps of the first [n] operations of
+   [d_prog], in order. *)
+Definition op_tag (o : uop) : N :=
+  match o with
+  | UMkdir => 10
+  | UOpenCreate f => 20 + ufile_id f
+  | UOpenTrunc f => 30 + ufile_id f
+  | UTruncate f => 40 + ufile_id f
+  | UWriteAt f _ _ => 50 + ufile_id f
+  | UAppend f _ => 60 + ufile_id f
+  end.
+Definition step_tags (s : mstep) : list N :=
+  match s with MOp o => [op_tag o] | MStore => [50] | _ => [] end.
+Definition prog_tags (ops : list (list mstep)) : list N := flat_map (flat_map step_tags) ops.
+
 Inductive crash_case :=
-| CCase (sc : scenario) (cp : crashpoint) (acked : bool) (restart final again : obs_view).
+| CCase (sc : scenario) (cp : crashpoint) (acked : bool) (restart final again : obs_view)
+| OCase (sc : scenario) (n : nat) (tags : list N).
 
 Definition view_node (v : view) : bytes :=
   match s_extra (v_status v) with XRemote n _ _ _ => n | _ => [] end.
@@ -556,4 +574,5 @@ Definition crash_check (c : crash_case) : bool :=
     && agree_view (o_restart o) restart
     && agree_view (o_final o) final
     && agree_view (o_again o) again
+  | OCase sc n tags => beq_bytes (prog_tags (firstn n (d_prog sc))) tags
   end.
